@@ -1,0 +1,17 @@
+//go:build verif
+
+package huffman
+
+// Contracts for the gocv verifier (/verif/DESIGN.md). Comments only; compiled only with the build tag "verif".
+
+//@ func (*LenLimitedCode).Generate
+//@   trusted "not yet verified: in-place Moffat code length computation, sorting and length limiting; assumed: every used symbol gets a length in 1..limitedLen, unused symbols length 0"
+//@   requires l != nil && (limitedLen == 7 || limitedLen == 15) && len(histogram) == len(codeLens) && len(histogram) <= 286
+//@   modifies codeLens[*], **l
+//@   ensures forall i :: 0 <= i && i < len(codeLens) ==> codeLens[i] <= uint32(limitedLen) && ((old(histogram[i]) == 0) == (codeLens[i] == 0))
+
+//@ func GenerateCode2
+//@   trusted "not yet verified: canonical code assignment (RFC 1951 3.2.2), bit-reversed, packed as code | length<<24"
+//@   requires forall i :: 0 <= i && i < len(lens) ==> lens[i] <= 15
+//@   modifies lens[*]
+//@   ensures forall i :: 0 <= i && i < len(lens) ==> lens[i]>>24 == old(lens[i]) && (lens[i] & 16777215) >> old(lens[i]) == 0 && (old(lens[i]) == 0 ==> lens[i] == 0)
